@@ -746,3 +746,78 @@ func centroidFrameRule(p *core.Program, r *core.Report, rule string) {
 		r.Lost(rule, "xy/GetCentroid", "no centroid calculator with a GetCentroid method is left")
 	}
 }
+
+// fanBaseLocalRule (C14): the triangle fans of a polygon are anchored at a point of that polygon.
+func fanBaseLocalRule(p *core.Program, r *core.Report, rule string) {
+	r.Rule(rule, "in the area centroid calculator the base point of the triangle fans (the coordinate-typed field that is handed to the triangle kernel as its first vertex) is stored unconditionally for every polygon added: the store is taken on every path through the function that holds it (no test of the previous value), that function is called in AddPolygon before the rings are walked, and the value comes from AddPolygon's polygon. A base point kept from the first polygon makes the fan triangles of a small, distant polygon huge; their sum cancels and the polygon's share of the centroid is lost to rounding (0.11 units at coordinates of 3e5 with every product exact), and the result depends on the order of the members", 1)
+	add := mustFn(p, r, rule, "xy", "(*AreaCentroidCalculator).AddPolygon")
+	if add == nil || len(add.Params) < 2 {
+		return
+	}
+	// the field: stored with a coordinate in AddPolygon or in a function it hands the calculator to
+	type site struct {
+		fn *ssa.Function
+		st *ssa.Store
+		at ssa.Instruction // the instruction of AddPolygon at which the store happens
+	}
+	var sites []site
+	scan := func(fn *ssa.Function, recv ssa.Value, at ssa.Instruction) {
+		for _, b := range fn.Blocks {
+			for _, in := range b.Instrs {
+				st, ok := in.(*ssa.Store)
+				if !ok || !isFloatSliceLike(st.Val.Type()) {
+					continue
+				}
+				if fa, ok := st.Addr.(*ssa.FieldAddr); ok && fa.X == recv {
+					a := at
+					if a == nil {
+						a = st
+					}
+					sites = append(sites, site{fn, st, a})
+				}
+			}
+		}
+	}
+	scan(add, add.Params[0], nil)
+	for _, c := range eng.Calls(add) {
+		h := eng.StaticCallee(c)
+		if h == nil || h.Pkg != add.Pkg || len(h.Blocks) == 0 || len(c.Common().Args) == 0 || c.Common().Args[0] != ssa.Value(add.Params[0]) {
+			continue
+		}
+		scan(h, h.Params[0], c)
+	}
+	if len(sites) == 0 {
+		r.Bad(rule, short(add)+"/base-point", p.Pos(add.Pos()), "AddPolygon does not store a base point for the polygon it is given (neither itself nor through a function it hands the calculator to): the fans are anchored at whatever an earlier polygon left")
+		return
+	}
+	// the ring walks: calls in AddPolygon that hand on the calculator and a flat array
+	var walks []ssa.Instruction
+	for _, c := range eng.Calls(add) {
+		h := eng.StaticCallee(c)
+		if h == nil || h.Pkg != add.Pkg || len(c.Common().Args) < 2 || c.Common().Args[0] != ssa.Value(add.Params[0]) {
+			continue
+		}
+		for _, a := range c.Common().Args[1:] {
+			if isFloatSlice(a.Type()) {
+				walks = append(walks, c)
+			}
+		}
+	}
+	for i, s := range sites {
+		key := fmt.Sprintf("%s/base-point-store#%d", short(add), i+1)
+		bad := ""
+		if len(mustEdgesTo(s.fn, s.st.Block())) > 0 {
+			bad = "the store of the base point at " + p.Pos(s.st.Pos()) + " is conditional (taken only on some paths through " + short(s.fn) + "): a base point left by an earlier polygon is kept"
+		}
+		for _, w := range walks {
+			if w == s.at {
+				continue
+			}
+			dom := s.at.Block() == w.Block() && eng.InstrIndex(s.at) < eng.InstrIndex(w)
+			if !dom && !(s.at.Block() != w.Block() && s.at.Block().Dominates(w.Block())) {
+				bad = "the ring walk at " + p.Pos(w.Pos()) + " is not preceded on every path by the store of this polygon's base point"
+			}
+		}
+		r.Check(bad == "", rule, key, p.Pos(s.st.Pos()), true, fmt.Sprintf("unconditional, before the %d ring walks", len(walks)), bad)
+	}
+}
